@@ -41,12 +41,14 @@ class ModelMol:
         self.nodes = {}      # key -> {'resid','charge_group','atomname','chain'}
         self.edges = set()   # frozenset({a,b})
         self.inter = {}      # type -> list of [atoms(tuple), params(tuple), version]
+        self.citations = {'vermouth'}
 
     def clone(self):
         new = ModelMol()
         new.nodes = {k: dict(v) for k, v in self.nodes.items()}
         new.edges = set(self.edges)
         new.inter = {t: [list(i) for i in lst] for t, lst in self.inter.items()}
+        new.citations = set(self.citations)
         return new
 
     def abstract(self):
@@ -55,6 +57,7 @@ class ModelMol:
                       for k, d in self.nodes.items()],
             'edges': sorted(sorted(e) for e in self.edges),
             'inter': sorted([t, [[list(a), list(p), v] for a, p, v in lst]] for t, lst in self.inter.items() if lst),
+            'citations': sorted(self.citations),
         }
 
     def drop_nodes(self, keys):
@@ -75,6 +78,7 @@ def abstract_impl(mol):
         'edges': sorted(sorted(e) for e in mol.edges),
         'inter': sorted([t, [[list(i.atoms), list(i.parameters), i.meta.get('version', 0)] for i in lst]]
                         for t, lst in mol.interactions.items() if lst),
+        'citations': sorted(mol.citations),
     }
 
 
@@ -107,6 +111,8 @@ def donor(kind):
     for t, atoms, params, ver in inter:
         mol.add_interaction(t, atoms, list(params), meta={'version': ver} if ver else {})
         model.inter.setdefault(t, []).append([tuple(atoms), tuple(params), ver])
+    mol.citations.add('cite-' + kind)
+    model.citations.add('cite-' + kind)
     return mol, model
 
 
@@ -460,6 +466,7 @@ class Spec:
             new['resid'] = a['resid'] + shift[0]
             new['charge_group'] = a['charge_group'] + shift[1]
             after.nodes[corr[k]] = new
+        after.citations = set(before.citations) | set(dmodel.citations)
         after.edges = {frozenset(receiver_map[x] for x in e) for e in before.edges} | \
                       {frozenset(corr[x] for x in e) for e in dmodel.edges}
         for t, lst in before.inter.items():
@@ -479,7 +486,7 @@ class Spec:
             # model node order follows the implementation from here on
             ordered = ModelMol()
             ordered.nodes = {k: after.nodes[k] for k in order}
-            ordered.edges, ordered.inter = after.edges, after.inter
+            ordered.edges, ordered.inter, ordered.citations = after.edges, after.inter, after.citations
             world['model'][slot] = ordered
         found.extend(self.compare(world, label, name))
         return found
